@@ -486,7 +486,7 @@ var replayDrivers = map[string]string{
 	"maskGo": "maskGo", "writeFrameHeader": "writeFrameHeader", "readFrameHeader": "readFrameHeader",
 	"validWireCloseCode": "validWireCloseCode", "(CloseError).bytesErr": "bytesErr",
 	"parseClosePayload": "parseClosePayload", "(*Conn).SetReadLimit": "SetReadLimit",
-	"(*Conn).readLoop": "readLoop", "(*Conn).handleControl": "handleControl", "(*msgReader).Read": "msgReaderRead",
+	"(*Conn).readLoop": "readLoop", "(*Conn).handleControl": "handleControl", "(*msgReader).Read": "msgReaderRead", "(*Conn).writeFrame": "writeFrame",
 }
 
 // boundedDrivers: bounded stand-ins (never counted as proved) for repository functions whose
